@@ -27,6 +27,38 @@ CHECKS["C04"] = dict(
     text="At the instant each checkpoint upload takes effect, every object the Static CT layout requires for that size must exist among uploads that had returned earlier, with bytes equal to an independent rendering of the harness-known leaf sequence (hash tiles, gunzipped data tiles, names tiles line by line, issuers by fingerprint; leaf i carries index i and a timestamp <= the tree head's). Every Upload is checked against earlier versions of immutable keys and every Discard must name a staging bundle. ~260 (thorough ~5000) histories with all entry shapes and fault/crash plans plus long growth runs across tile boundaries.",
     note="Trusted: harness object store (S3-like blind overwrite so that a rewrite is observable), reference encoders, crypto/x509 for the names-tile expectation. Entries whose certificate cannot be DER are required to contribute no names line; lenient-parser cases are not judged.",
     design_ref="DESIGN.md section 3, C04",
-    parts=[P("audit", "^TestC04Audit$", shards=(12, 16)), P("growth", "^TestC04Growth$", shards=(4, 4))],
+    parts=[P("audit", "^TestC04Audit$", shards=(12, 16)), P("growth", "^TestC04Growth$", shards=(4, 4)),
+           P("issuerrace", "^TestC04IssuerRace$", shards=(2, 8)), P("issuerrace-race", "^TestC04IssuerRace$", race=True, shards=(1, 4), tiers=("thorough",))],
     floor=100,
+)
+
+CHECKS["C02"] = dict(
+    level="exploration",
+    technique="acknowledgement ledger: every wait-function return is stamped with the store's logical sequence number and judged offline against the object-store versions readable at that instant, the committed tree and the final stored leaves; fault placements of the serving round enumerated; race detector on the free-running workload",
+    text="Waiters block concurrently in their wait functions while the round runs with the checkpoint upload delayed inside the backend call; each acknowledgement is stamped with the world sequence number at return and then checked: a verified checkpoint readable at that instant covers the index, the data tile readable at that instant holds exactly the submitted entry with that timestamp, and the same holds in the lock-committed tree and in the final stored tree after fault placements (every op x applied/not), crashes at every op of the following round, and restart. A free-running RunSequencer with 8-24 concurrent submitters (new + duplicate entries; pool, in-sequencing and cache paths) is judged the same way, also under -race. The HTTP/SCT clause is exercised by the C09 workload (SCT verified independently).",
+    note="Trusted: harness stores and their sequence numbers (ack instant is read under the store mutex), reference decoder, ct-go signature verifier. Crash after acknowledgement is modelled at storage-call boundaries.",
+    design_ref="DESIGN.md section 3, C02",
+    parts=[P("phases", "^TestC02Phases$", shards=(8, 16)), P("stress", "^TestC02Stress$", shards=(2, 4)),
+           P("stress-race", "^TestC02Stress$", race=True, shards=(1, 4))],
+    floor=200,
+)
+
+CHECKS["C08"] = dict(
+    level="exploration",
+    technique="tamper generator over the object store + online monitor on every later lock commit: root must equal the reference RFC 6962 hash of the harness-held committed leaves extended by exactly the round's pool",
+    text="Object storage is tampered (per class: checkpoint, hash tiles incl. right edge, data, names, staging bundle, issuer, roots; per kind: delete, empty, truncate, bit flip raw or inside the gunzipped payload, swap, rollback, validly signed fork/older/larger checkpoint, bad gzip, gzip bomb; singles per class/kind at each size, seeded pairs/triples) before load, between a crash and its recovery, and under a live instance. The outcome (load refused / round error / continues) is recorded, not judged; every lock-store commit that follows is judged online: size = committed truth + pool of that round and root = reference MTH of exactly those leaves; acknowledgements are judged against the truth.",
+    note="The ground truth (committed leaves) is held by the harness outside the tampered store; the lock store is not tampered (the property trusts it). Trusted: reference Merkle tree and encoders.",
+    design_ref="DESIGN.md section 3, C08",
+    parts=[P("tamper", "^TestC08Tamper$", shards=(12, 16))],
+    floor=300,
+)
+
+CHECKS["C06"] = dict(
+    level="exploration",
+    technique="controlled schedules: every backend call of 2-3 real Log instances passes a central gate; interleavings enumerated for small rounds and seeded for larger ones; lock-history, acknowledgement and storage monitors; generated start-up state matrix with byte-identical-stores check",
+    text="Two or three instances loaded from the same lock checkpoint (private caches, shared object store) run one round each while a scheduler releases one backend call at a time: all interleavings for pool sizes (0,0), (0,1) and all merges of the first 4-5 calls for (1,1), seeded schedules for larger/multi-tile pools and three instances. Oracle: at most one lock commit per starting checkpoint, each non-committing instance returns the fatal sequencing error and acknowledges nothing, stays unable to commit afterwards, the winner continues, the lock-committed tree is fully and exactly rendered in storage, append-only monitors hold. Start-up matrix: 15 generated states x 5 sizes must be refused by LoadLog/CreateLog with both stores unchanged; two concurrent CreateLogs under all 70 interleavings of their first four calls: exactly one succeeds.",
+    note="Interleavings are controlled at Backend/LockBackend call granularity (as the property states). The misconfigured-separate-storage variant is not covered. Trusted: harness CAS store, gate scheduler, reference renderer.",
+    design_ref="DESIGN.md section 3, C06",
+    parts=[P("schedules", "^TestC06Schedules$", shards=(8, 16)), P("startup", "^TestC06Startup$", shards=(2, 4))],
+    floor=150,
 )
